@@ -21,6 +21,7 @@ import (
 	zio "github.com/DemoHn/Zn/pkg/io"
 
 	"verifharness/internal/pool"
+	"verifharness/internal/zn"
 )
 
 type shortCase struct {
@@ -258,4 +259,101 @@ func handleFileConc(raw json.RawMessage) interface{} {
 func init() {
 	pool.Register("fileshort", handleFileShort)
 	pool.Register("fileconc", handleFileConc)
+}
+
+// "filebig": "whatever its size" - a valid vector tiled to a file of a given size (beyond 64 KiB, 1 MiB, 4 MiB, 16 MiB ...), a marker
+// character at the very end; ReadAll must deliver every character, and a program of that size must run to its last statement
+type bigCase struct {
+	F     []string   `json:"f"`
+	Chars [][]string `json:"chars"`
+	Size  int        `json:"size"`
+	Rep   int        `json:"rep"`
+	BOM   bool       `json:"bom"` // put a byte-order mark in front
+}
+
+func handleFileBig(raw json.RawMessage) interface{} {
+	var c bigCase
+	if err := json.Unmarshal(raw, &c); err != nil {
+		return map[string]interface{}{"obs": "harness-error", "detail": err.Error()}
+	}
+	dir := os.Getenv("VERIF_SCRATCH")
+	if dir == "" {
+		dir = os.TempDir()
+	}
+	path := filepath.Join(dir, fmt.Sprintf("c17-big-%d.zn", os.Getpid()))
+	defer os.Remove(path)
+	unit := concrete(c.F, c.Rep)
+	urunes := expectRunes(c.Chars, c.Rep, false)
+	n := c.Size/len(unit) + 1
+	var ms []mism
+	runs := 0
+	// (a) the raw file
+	{
+		data := bytes.Repeat(unit, n)
+		data = append(data, []byte("尾")...)
+		if c.BOM {
+			data = append([]byte{0xEF, 0xBB, 0xBF}, data...)
+		}
+		os.WriteFile(path, data, 0644)
+		fs, err := zio.NewFileStream(path)
+		if err != nil {
+			return map[string]interface{}{"obs": "harness-error", "detail": err.Error()}
+		}
+		got, gerr := fs.ReadAll()
+		runs++
+		wantLen := n*len(urunes) + 1
+		bad := ""
+		if gerr != nil {
+			bad = "error: " + gerr.Error()
+		} else if len(got) != wantLen {
+			bad = fmt.Sprintf("%d characters", len(got))
+		} else if got[len(got)-1] != '尾' {
+			bad = fmt.Sprintf("last character %U", got[len(got)-1])
+		} else {
+			for i := 0; i < len(got)-1; i++ {
+				if got[i] != urunes[i%len(urunes)] {
+					bad = fmt.Sprintf("character %d is %U", i, got[i])
+					break
+				}
+			}
+		}
+		if bad != "" {
+			k := "altered"
+			if gerr != nil {
+				k = "valid-rejected"
+			}
+			ms = append(ms, mism{"ReadAll@big", len(data), c.Rep, k, fmt.Sprintf("% x repeated to %d bytes + 尾, byte-order mark in front: %v", unit, len(data), c.BOM), fmt.Sprintf("%d characters ending in 尾", wantLen), bad})
+		}
+	}
+	// (b) a program of that size: the padding sits in a comment between two statements
+	{
+		var b bytes.Buffer
+		if c.BOM {
+			b.Write([]byte{0xEF, 0xBB, 0xBF})
+		}
+		b.WriteString("令计 = 1\n// ")
+		b.Write(bytes.Repeat(unit, n))
+		b.WriteString("\n计 = 2\n输出计\n")
+		// the unit may contain characters that end a line comment (none of the representatives is CR / LF)
+		os.WriteFile(path, b.Bytes(), 0644)
+		o := runBigFile(path)
+		runs++
+		if o != "2" {
+			ms = append(ms, mism{"Execute@big", b.Len(), c.Rep, "valid-altered", fmt.Sprintf("program of %d bytes (padding % x in a comment)", b.Len(), unit), "2", o})
+		}
+	}
+	return map[string]interface{}{"obs": "done", "runs": runs, "mism": ms}
+}
+
+func init() { pool.Register("filebig", handleFileBig) }
+
+func runBigFile(path string) string {
+	o := zn.RunFile(path, nil)
+	if o.Obs != "value" {
+		return o.Obs + ": " + lastLine(o.Msg)
+	}
+	if s, ok := o.Val["s"].(string); ok {
+		return s
+	}
+	return fmt.Sprint(o.Val)
 }
